@@ -11,6 +11,7 @@ import fractions
 import gc
 import os
 import struct
+import threading
 
 from common import import_usim
 
@@ -68,7 +69,8 @@ def model_line(scenario, kind='rat'):
         if isinstance(x, bool):
             return '1' if x else '0'
         if isinstance(x, str):
-            return x
+            # 'pinf' = an ordinary Pipe whose throughput is float('inf') (float runs only); 'inf' = UnboundedPipe
+            return t2s(float('inf'), 'float') if x == 'pinf' else x
         if (head in TIME_POS and (TIME_POS[head] == 'all' or pos in TIME_POS[head])) \
                 or isinstance(x, (fractions.Fraction, float)):
             return t2s(x, kind)
@@ -115,13 +117,16 @@ class Interp:
         for i, r in enumerate(self.fields.get('resources', [])):
             levels = {self.rname(j): int(v) for j, v in enumerate(r[2:])}
             self.res[i] = (Capacities if int(r[1]) else Resources)(**levels)
-        self.pipes = [UnboundedPipe() if t == 'inf' else Pipe(self.tv(t)) for t in self.fields.get('pipes', [])]
+        self.pipes = [UnboundedPipe() if t == 'inf' else Pipe(float('inf')) if t == 'pinf' else Pipe(self.tv(t))
+                      for t in self.fields.get('pipes', [])]
         self.scopes = {}
         self.tasks = {}
         self.task_index = {}
         self.task_by_label = {}
         self.nested_unfinished = set()
         self.put_count = 0
+        self.chan_subs = {}
+        self.on_emit = None
         self.pending_awaits = {}
         self.scope_insts = 0
         self.scope_inst_of = {}
@@ -159,6 +164,8 @@ class Interp:
         return __USIM_STATE__.loop
 
     def emit(self, label, tag, args=()):
+        if self.on_emit is not None:
+            self.on_emit()
         if self.ended or getattr(self, 'quiet', False):
             return
         lp = self.loop()
@@ -273,7 +280,7 @@ class Interp:
         return isinstance(e, {'concurrent': u.Concurrent, 'taskCancelled': u.TaskCancelled,
                               'taskClosed': u.TaskClosed, 'streamClosed': u.StreamClosed,
                               'resUnavailable': u.ResourcesUnavailable, 'intervalExceeded': u.IntervalExceeded,
-                              'scopeClosed': ScopeClosed, 'anyException': Exception}[p])
+                              'scopeClosed': ScopeClosed, 'anyException': Exception, 'cancelTask': u.CancelTask}[p])
 
     # -- statements --------------------------------------------------------------------------
     async def block(self, label, stmts):
@@ -464,25 +471,37 @@ class Interp:
                 self.emit(label, 'cputrej', [s[1], item])
                 raise
         elif h == 'cget':
-            self.emit(label, 'csub', [s[1], 0])
+            # every subscription of a channel gets a number (the order in which the channel registers them)
+            if self.chans[s[1]]._closed:
+                sid = -1
+            else:
+                sid = self.chan_subs.get(s[1], 0)
+                self.chan_subs[s[1]] = sid + 1
+            self.emit(label, 'csub', [s[1], 0, sid])
             v = await self.chans[s[1]]
-            self.emit(label, 'got', [v])
+            self.emit(label, 'got', [v, s[1], sid])
         elif h == 'cclose':
             await self.chans[s[1]].close()
         elif h == 'citer':
             n = 0
-            self.emit(label, 'csub', [s[1], 1])
+            sid = self.chan_subs.get(s[1], 0)
+            self.chan_subs[s[1]] = sid + 1
+            self.emit(label, 'csub', [s[1], 1, sid])
             if s[2] > 0:
                 # an abandoned iteration (break / exception) is finalised by CPython's reference
                 # counting; when exactly the consumer's buffer disappears is not observable
                 async for v in self.chans[s[1]]:
-                    self.emit(label, 'got', [v])
+                    self.emit(label, 'got', [v, s[1], sid])
                     await self.block(label, s[3:])
                     n += 1
                     if n >= s[2]:
+                        self.emit(label, 'cleave', [s[1], sid])
                         break
+                    self.emit(label, 'cnext', [s[1], sid])     # (about to ask for the next message)
                 else:
-                    self.emit(label, 'cend', [s[1]])
+                    self.emit(label, 'cend', [s[1], sid])
+            else:
+                self.emit(label, 'cleave', [s[1], sid])
         elif h == 'settracked':
             await self.tracked[s[1]].set(s[2])
         elif h == 'addtracked':
@@ -517,12 +536,16 @@ class Interp:
                 self.emit(label, 'unbound')
                 return
             self.emit(label, 'reschange', [s[1], s[2]] + list(s[3]))
-            if s[2] == 0:
-                await r.increase(**self.amounts(s[3]))
-            elif s[2] == 1:
-                await r.decrease(**self.amounts(s[3]))
-            else:
-                await r.set(**{k: v for k, v in self.amounts(s[3]).items() if v != -1})
+            try:
+                if s[2] == 0:
+                    await r.increase(**self.amounts(s[3]))
+                elif s[2] == 1:
+                    await r.decrease(**self.amounts(s[3]))
+                else:
+                    await r.set(**{k: v for k, v in self.amounts(s[3]).items() if v != -1})
+            except AssertionError:
+                self.emit(label, 'resrej', [s[1]])       # (refused: negative amounts, or more than there is)
+                raise
         elif h == 'levels':
             r = self.res.get(s[1])
             if r is None:
@@ -1002,8 +1025,8 @@ class Interp:
             previous = signal.signal(signal.SIGALRM, on_alarm)
             signal.setitimer(signal.ITIMER_REAL, float(os.environ.get('VERIF_CASE_SECONDS', '20')))
             armed = True
-        real_loop_class = _usim._Loop
-        _usim._Loop = GuardedLoop
+        _install_loop_dispatch()
+        _TL.cls = GuardedLoop
         try:
             _usim.run(*coros, start=start, till=None if till is None else self.tv(till))
         except TooLong:
@@ -1014,7 +1037,7 @@ class Interp:
                 import traceback
                 traceback.print_exc()
         finally:
-            _usim._Loop = real_loop_class
+            _TL.cls = None
             if armed:
                 signal.setitimer(signal.ITIMER_REAL, 0)
                 signal.signal(signal.SIGALRM, previous)
@@ -1061,5 +1084,26 @@ class Interp:
         return result
 
 
-def run_impl(scenario, kind='rat'):
-    return Interp(scenario, kind).run()
+#: the loop class `usim.run` instantiates in this thread (scenarios may run in several threads at once)
+_TL = threading.local()
+_DISPATCH_LOCK = threading.Lock()
+_REAL_LOOP = None
+
+
+def _install_loop_dispatch():
+    """`usim._Loop` (the only name `usim.run` reads the loop class from) becomes a per-thread dispatcher, once"""
+    global _REAL_LOOP
+    import usim as _usim
+    with _DISPATCH_LOCK:
+        if _REAL_LOOP is None:
+            _REAL_LOOP = _usim._Loop
+
+            def make(*a, **k):
+                return (getattr(_TL, 'cls', None) or _REAL_LOOP)(*a, **k)
+            _usim._Loop = make
+
+
+def run_impl(scenario, kind='rat', on_emit=None):
+    it = Interp(scenario, kind)
+    it.on_emit = on_emit
+    return it.run()
